@@ -37,14 +37,20 @@ def reset_mcb():
 
 # ----------------------------------------------------------------------------- stores
 
+_RAISE_ROT = [0]
+
+
 def mk_slave(kind):
     """kind: 'ok' | 'raise' (datastore raises RuntimeError) | 'noslave' (datastore raises
     NoSuchSlaveException from inside request.execute)"""
     from pymodbus.datastore import ModbusSlaveContext, ModbusSequentialDataBlock
     from pymodbus.exceptions import NoSuchSlaveException
 
+    _RAISE_ROT[0] += 1
+
     class Raising(ModbusSlaveContext):
-        exc = RuntimeError
+        # rotates over what a failing datastore naturally raises; all are "the datastore raised", none "no such unit"
+        exc = [RuntimeError, KeyError, IndexError, ValueError, AttributeError, TypeError, OSError][_RAISE_ROT[0] % 7]
 
         def validate(self, fx, address, count=1):
             raise self.exc("datastore failure")
